@@ -5,6 +5,7 @@ import (
 	"net"
 	"strings"
 	"testing"
+	"time"
 
 	vp "github.com/postalsys/muti-metroo/internal/zzvp"
 	"pgregory.net/rapid"
@@ -83,4 +84,51 @@ func TestVP_C13_NearerExit(t *testing.T) {
 			}
 		}
 	})
+}
+
+// TestVP_C13_Dynamic: the histories of C14 (links going down and coming back, full-table
+// replays, origins re-announcing over whatever path is left) with C13's oracle. After every
+// announcement, each copy of the origin's routes that the announcement refreshed must carry
+// the path it actually travelled: a chain of live links from the holder to the origin, and a
+// metric equal to its length. (A route refreshed over a detour that keeps the path of the
+// first time it was learned is what a replay then hands on.)
+func TestVP_C13_Dynamic(t *testing.T) {
+	st := vp.NewStats("C13", "dynamic", "vpsim 3-6 nodes, histories of connect / disconnect / announce as in C14; after each announcement every refreshed copy of the origin's routes has metric == len(path) and a path that is a chain of live links ending at the origin; non-trivial = >=2 announcements and a replay relayed by a node ahead of the origin (as C14)")
+	defer st.Flush()
+	judged := 0
+	vpC14AfterAnnounce = func(t *rapid.T, s *vpSim, o int, at time.Time, shape string, edges [][2]int) {
+		orig := s.originated(o)
+		for i := range s.nodes {
+			if i == o {
+				continue
+			}
+			for _, r := range s.learned(i, o) {
+				m0, ok := orig[r.key]
+				if !ok || r.updated.Before(at) {
+					continue // not refreshed by this announcement: C14's business
+				}
+				judged++
+				if int(r.metric)-int(m0) != len(r.path) {
+					t.Fatalf("VPFAIL C13 after announce(%d) node %d holds a refreshed %s with metric %d (origin metric %d) but a recorded path %v of %d hops\n  graph %s %v\n  history: %s", o, i, r.key, r.metric, m0, r.path, len(r.path), shape, edges, s.history())
+				}
+				cur := i
+				for _, p := range r.path {
+					if p < 0 || !s.adj[[2]int{cur, p}] {
+						t.Fatalf("VPFAIL C13 after announce(%d) node %d holds a refreshed %s whose recorded path %v uses %d-%d, which is not a live link: the path is not the one the announcement travelled\n  graph %s %v\n  history: %s", o, i, r.key, r.path, cur, p, shape, edges, s.history())
+					}
+					cur = p
+				}
+				if cur != o {
+					t.Fatalf("VPFAIL C13 after announce(%d) node %d holds a refreshed %s whose recorded path %v does not end at the origin\n  history: %s", o, i, r.key, r.path, s.history())
+				}
+			}
+		}
+	}
+	defer func() { vpC14AfterAnnounce = nil }()
+	rapid.Check(t, func(t *rapid.T) {
+		// C14's own oracles run along; its listed finding (replay-sequence-ahead) is tolerated
+		// here regardless of this check's exclusion list
+		vpC14RunTol(t, st, true, true)
+	})
+	st.Count("refreshed-copies-judged", judged)
 }
